@@ -2,6 +2,7 @@ package main
 
 import (
 	"go/types"
+	"strings"
 	"math/big"
 	"sync"
 )
@@ -67,4 +68,94 @@ func tagNumber(name string) int64 {
 	n := int64(1000 + len(tagNums))
 	tagNums[name] = n
 	return n
+}
+
+// rebaseIndexVar: if the bound variable `name` occurs in the body (mostly) in the form (+ OFF name)
+// with one offset term OFF, substitute name := k - OFF where k is a new bound variable, so that
+// (+ OFF name) becomes k. Returns the new body and the new variable's name.
+func rebaseIndexVar(body, name string) (string, string, bool) {
+	// find occurrences of " name)" that close a "(+ X name)" form
+	counts := map[string]int{}
+	needle := " " + name + ")"
+	for i := 0; i+len(needle) <= len(body); i++ {
+		if body[i:i+len(needle)] != needle {
+			continue
+		}
+		// scan backwards over one balanced term X, then expect "(+ "
+		j := i // position of the space before name
+		k := j - 1
+		depth := 0
+		for k >= 0 {
+			c := body[k]
+			if c == ')' {
+				depth++
+			} else if c == '(' {
+				depth--
+				if depth == 0 {
+					break
+				}
+				if depth < 0 {
+					break
+				}
+			} else if depth == 0 && (c == ' ') {
+				break
+			}
+			k--
+		}
+		if k < 0 {
+			continue
+		}
+		var x string
+		var start int
+		if body[k] == '(' && depth == 0 {
+			x = body[k:j]
+			start = k
+		} else if body[k] == ' ' {
+			x = body[k+1 : j]
+			start = k + 1
+		} else {
+			continue
+		}
+		if start < 3 || body[start-3:start] != "(+ " {
+			continue
+		}
+		if strings.Contains(x, name) {
+			continue
+		}
+		counts[x]++
+	}
+	best, bestN := "", 0
+	for x, n := range counts {
+		if n > bestN || (n == bestN && x < best) {
+			best, bestN = x, n
+		}
+	}
+	if bestN == 0 || best == "0" {
+		return body, "", false
+	}
+	nn := strings.TrimSuffix(name, "|")
+	if strings.HasPrefix(name, "|") {
+		nn = nn + "@k|"
+	} else {
+		nn = nn + "@k"
+	}
+	out := strings.ReplaceAll(body, "(+ "+best+" "+name+")", nn)
+	// remaining occurrences of the variable as a whole token
+	repl := "(- " + nn + " " + best + ")"
+	var sb strings.Builder
+	for i := 0; i < len(out); {
+		if strings.HasPrefix(out[i:], name) {
+			prevOK := i == 0 || out[i-1] == ' ' || out[i-1] == '('
+			end := i + len(name)
+			nextOK := end == len(out) || out[end] == ' ' || out[end] == ')'
+			if prevOK && nextOK {
+				sb.WriteString(repl)
+				i = end
+				continue
+			}
+		}
+		sb.WriteByte(out[i])
+		i++
+	}
+	return sb.String(), nn, true
 }
